@@ -198,7 +198,14 @@ pub fn generate(rng: &mut Rng, tier: Tier) -> Case {
         },
         85..=92 => {
             let nw = rng.range(2, 6);
-            let words = (0..nw).map(|i| format!("w{}x{}", i, rng.below(100))).collect();
+            // some words contain multi-byte characters: the read built-in
+            // assembles them from single-byte reads
+            let words = (0..nw)
+                .map(|i| {
+                    let tail = *rng.pick(&["", "", "\u{e9}", "\u{3042}\u{3044}", "\u{1F600}", "\u{df}x"]);
+                    format!("w{}x{}{}", i, rng.below(100), tail)
+                })
+                .collect();
             let naps = (0..nw).map(|_| rng.below(4)).collect();
             Kind::ReadSlow { words, naps }
         }
